@@ -61,7 +61,18 @@ fn gen_proj(t: &mut Tape) -> Proj {
     let mut files: Vec<FileSpec> = Vec::new();
     for i in 0..n {
         let d = DIRS[t.below(DIRS.len())];
-        let rel = if d.is_empty() { format!("f{i}.circom") } else { format!("{d}/f{i}.circom") };
+        // a third of the files reuse the base name of an earlier file in another directory, so that one
+        // include text can mean different files from different places (sibling first, then the libraries)
+        let mut base = format!("f{i}.circom");
+        if i > 0 && t.chance(85) {
+            let other: &FileSpec = &files[t.below(i)];
+            let b = other.rel.rsplit('/').next().unwrap_or("").to_string();
+            let candidate = if d.is_empty() { b.clone() } else { format!("{d}/{b}") };
+            if !files.iter().any(|f| f.rel == candidate) {
+                base = b;
+            }
+        }
+        let rel = if d.is_empty() { base } else { format!("{d}/{base}") };
         let nt = 1 + t.below(2);
         let templates = (0..nt).map(|j| format!("T{i}x{j}")).collect();
         let functions = if t.chance(80) { vec![format!("g{i}")] } else { vec![] };
@@ -92,8 +103,19 @@ fn gen_proj(t: &mut Tape) -> Proj {
         let k = t.below(4);
         for _ in 0..k {
             let from_dir = dir_of(&files[i].rel).to_string();
-            let spelled = match t.below(12) {
+            let spelled = match t.below(13) {
                 0 => "nope.circom".to_string(),
+                12 => {
+                    // a dot-relative spelling of the bare name of some file: resolves only if that file
+                    // happens to sit there (such spellings never go through the libraries)
+                    let j = t.below(n);
+                    let bare = files[j].rel.rsplit('/').next().unwrap_or("").to_string();
+                    if t.chance(128) {
+                        format!("../{bare}")
+                    } else {
+                        format!("./{bare}")
+                    }
+                }
                 1 if !symlinks.is_empty() => relpath(&from_dir, &symlinks[0].0),
                 _ => {
                     let j = t.below(n); // may be i itself (self include)
@@ -310,6 +332,15 @@ fn check_project_in(ctx: &Ctx, p: &Proj, rec: &Rec, root: &Path) -> Verdict {
     }
     if !p.libs.is_empty() {
         rec.class("projects_with_library_arguments");
+    }
+    {
+        let mut bases: Vec<&str> = p.files.iter().map(|f| f.rel.rsplit('/').next().unwrap_or("")).collect();
+        bases.sort();
+        let n = bases.len();
+        bases.dedup();
+        if bases.len() < n {
+            rec.class("projects_with_one_file_name_in_several_directories");
+        }
     }
     if p.files.iter().any(|f| f.includes.iter().any(|i| !i.contains('/') || i.contains("/../"))) && !p.libs.is_empty() {
         rec.class("projects_with_bare_or_dotdot_include_and_libraries");
